@@ -312,8 +312,8 @@ func checkC01(c *core.Ctx) error {
 		}
 		rng := core.NewRand(c.Seed)
 		rng.Shuffle(len(rest), func(a, b int) { rest[a], rest[b] = rest[b], rest[a] })
-		if len(rest) > 3000 {
-			rest = rest[:3000]
+		if len(rest) > 2000 {
+			rest = rest[:2000]
 		}
 		cases = append(core_, rest...)
 	}
